@@ -496,7 +496,7 @@ func TestC17(t *testing.T) {
 	// (4) published copy identical to what the command writes
 	{
 		var vs vlist
-		pub, err := os.ReadFile("/repo/www/docs/static/schema.json")
+		pub, err := os.ReadFile(filepath.Join(repoDir(), "www/docs/static/schema.json"))
 		wr, err2 := os.ReadFile(written)
 		if err != nil || err2 != nil {
 			vs.add("C17.published.unreadable", "", "%v %v", err, err2)
